@@ -545,6 +545,11 @@ func OracleNL(op M, res any, exec func(M) any) []Finding {
 		if a.Nodup() && !Equal(want, res) {
 			add("C16", "root lookup returned %s, expected %s", js(res), js(want))
 		}
+		for _, x := range asList(res) {
+			if x == "nil-node" {
+				add("C16", "root lookup returned a nil element (roots %s)", js(op["a"].(M)["roots"]))
+			}
+		}
 	case "match":
 		out = append(out, oracleMatch(op, res, exec)...)
 	}
